@@ -729,49 +729,70 @@ def tri(f):
         return -1
 
 
-def eq_probe(impl, rng, result, expect, vals):
-    """Compare `result` with its twin from_array(expect, common=result.common) and with perturbed
-    twins.  Returns (eqcases, problems); eqcases are (spec a, spec b, eq, ne) for the Coq side."""
+def eq_probe(impl, rng, result, expect, vals, pool=None):
+    """Compare `result` with its twin from_array(expect, common=result.common), with perturbed twins (one cell,
+    the common, the shape, the same rows in another order) and with indexes reached by OTHER histories (`pool`:
+    list of (real index, its expected dense array)).  Reflexivity, symmetry, transitivity over {result, twin, copy},
+    `!=` is exactly `not ==` and never raises, non-index operands.
+    Returns (eqcases, problems); eqcases are (spec a, spec b, eq, ne) for the Coq side."""
     cases, problems = [], []
     if expect is None or expect.ndim > 2:
         return cases, problems
     fa = impl.iindex.from_array
     common = int(result.common)
 
-    def probe(other, want_equal, what):
-        e1, n1 = tri(lambda: result == other), tri(lambda: result != other)
-        e2, n2 = tri(lambda: other == result), tri(lambda: other != result)
-        cases.append((spec_of(result), spec_of(other), e1, n1))
-        cases.append((spec_of(other), spec_of(result), e2, n2))
+    def probe(a, b, want_equal, what):
+        e1, n1 = tri(lambda: a == b), tri(lambda: a != b)
+        e2, n2 = tri(lambda: b == a), tri(lambda: b != a)
+        cases.append((spec_of(a), spec_of(b), e1, n1))
+        cases.append((spec_of(b), spec_of(a), e2, n2))
         w = 1 if want_equal else 0
         if (e1, n1, e2, n2) != (w, 1 - w, w, 1 - w):
             problems.append(("C15", "eq:%s" % what, "(a==b, a!=b, b==a, b!=a) = %r with a = %r, b = %r; expected %r (1 True, 0 False, -1 raised)" % (
-                (e1, n1, e2, n2), spec_of(result), spec_of(other), (w, 1 - w, w, 1 - w))))
+                (e1, n1, e2, n2), spec_of(a), spec_of(b), (w, 1 - w, w, 1 - w))))
 
     try:
         twin = fa(expect, common=common)
     except Exception as e:  # noqa
         problems.append(("C15", "eq:twin-construction", "from_array(%r, common=%r) raised %s" % (expect.tolist(), common, e)))
         return cases, problems
-    probe(twin, True, "twin-unequal")
-    probe(result.copy(), True, "copy-unequal")
-    k = rng.random()
-    if expect.size and k < 0.5:
-        b = expect.copy()
-        c = rand_cell(rng, b)
-        b[c] = rng.choice([v for v in vals + [NEVER] if v != b[c]])
-        probe(fa(b, common=common), False, "differs-in-a-cell")
-    elif k < 0.75:
-        oc = rng.choice([v for v in vals + [NEVER] if v != common])
-        probe(fa(expect, common=oc), False, "differs-in-common")
-    else:
-        if expect.shape[0] and rng.random() < 0.5:
-            b = expect[:-1]
-        else:
-            b = numpy.concatenate([expect, numpy.full((1,) + expect.shape[1:], common, dtype=int)])
-        probe(fa(b, common=common), False, "differs-in-shape")
+    cp = result.copy()
+    probe(result, twin, True, "twin-unequal")
+    probe(result, cp, True, "copy-unequal")
+    probe(result, result, True, "not-reflexive")
+    probe(twin, cp, True, "not-transitive")          # result == twin and result == copy, so twin == copy
+    kinds = ["cell", "common", "shape", "order"]
+    rng.shuffle(kinds)
+    for kind in kinds[:2]:
+        if kind == "cell" and expect.size:
+            b = expect.copy()
+            c = rand_cell(rng, b)
+            b[c] = rng.choice([v for v in vals + [NEVER] if v != b[c]])
+            probe(result, fa(b, common=common), False, "differs-in-a-cell")
+        elif kind == "common":
+            oc = rng.choice([v for v in vals + [NEVER] if v != common])
+            probe(result, fa(expect, common=oc), False, "differs-in-common")
+        elif kind == "shape":
+            k = rng.random()
+            if expect.shape[0] and k < 0.4:
+                b = expect[:-1]
+            elif k < 0.8 or expect.ndim == 1:
+                b = numpy.concatenate([expect, numpy.full((1,) + expect.shape[1:], common, dtype=int)])
+            else:
+                b = numpy.concatenate([expect, numpy.full((expect.shape[0], 1), common, dtype=int)], axis=1)   # one more all-common column
+            probe(result, fa(b, common=common), False, "differs-in-shape")
+        elif kind == "order" and expect.shape[0] > 1:
+            # same rows in another order: every per-value count is the same, only the row ids differ
+            b = numpy.roll(expect, 1, axis=0)
+            probe(result, fa(b, common=common), bool((b == expect).all()), "differs-in-row-order")
+    # indexes reached by other histories: == iff (shape, common, dense content) coincide
+    if pool:
+        for other, oa in rng.sample(pool, min(2, len(pool))):
+            same = (tuple(other.shape) == tuple(result.shape) and int(other.common) == common
+                    and oa.shape == expect.shape and bool((oa == expect).all()))
+            probe(result, other, same, "other-history")
     # non-index operands
-    for other in (5, None, "x", {}):
+    for other in (5, None, "x", {}, (), numpy.zeros(2)):
         if tri(lambda: result == other) != 0 or tri(lambda: result != other) != 1:
             problems.append(("C15", "eq:non-index", "comparison with %r: == gives %r, != gives %r" % (other, tri(lambda: result == other), tri(lambda: result != other))))
     return cases, problems
@@ -785,8 +806,9 @@ class History:
     pass
 
 
-def run_history(impl, rng, max_steps, dims3=False, with_eq=True, own=None):
+def run_history(impl, rng, max_steps, dims3=False, with_eq=True, own=None, pool=None):
     h = History()
+    h.final = None
     h.init = gen_init(rng, impl, dims3)
     h.steps = []
     h.eqcases = []
@@ -828,7 +850,7 @@ def run_history(impl, rng, max_steps, dims3=False, with_eq=True, own=None):
         if with_eq and not st.tainted:
             # the twin comparison is made even when another oracle already objected to this step
             # (an ill-formed result is exactly what makes an index unequal to its twin)
-            cs, ps = eq_probe(impl, rng, idx, a, vals)
+            cs, ps = eq_probe(impl, rng, idx, a, vals, pool)
             if not st.problems:
                 h.eqcases.extend(cs)
             for p in ps:
@@ -843,6 +865,8 @@ def run_history(impl, rng, max_steps, dims3=False, with_eq=True, own=None):
             if st.tainted and not any(p[0] == own for p in allp):
                 continue
             break
+    if not h.problems:
+        h.final = (idx, a)             # never touched again: may serve as "an index reached by another history"
     return h
 
 
@@ -868,23 +892,187 @@ def replay_one_step(impl, rng, repro, vals=None):
     return st
 
 
-def replay_history(impl, rng, hj):
-    """Re-run a recorded history (init spec + op list); returns the list of (step, prop, sig, text)."""
+def replay_history(impl, rng, hj, own=None):
+    """Re-run a recorded history (init spec + op list); returns the list of (step, prop, sig, text).
+    Stops at the first step that `own` (any property if None) objects to, or when the state can no longer be
+    carried on; problems of other properties are recorded and the history continues (as run_history does)."""
     idx = build(impl, hj["init"]["spec"])
     a = numpy.array(hj["init"]["array"], dtype=int).reshape(hj["init"]["shape"])
     out = []
     for i, op in enumerate(hj["ops"]):
-        st = run_step(impl, idx, a, op)
+        try:
+            st = run_step(impl, idx, a, op)
+        except Exception:  # noqa  (arguments that no longer fit the state, e.g. while shrinking)
+            break
         ps = list(st.problems)
-        if not ps and not st.raised:
+        if not st.raised and st.after is not None and sane_for_densify(st.after):
             idx = st.result
             a = st.expect if st.expect is not None else densify(st.after)
+            if a.shape != tuple(st.after["shape"]):
+                a = densify(st.after)
             cs, ps2 = eq_probe(impl, rng, idx, a, POOLS[0])
             ps.extend(ps2)
+        elif ps:
+            out.extend((i,) + p for p in ps)
+            break
         out.extend((i,) + p for p in ps)
-        if ps:
+        if any(own is None or p[0] == own for p in ps):
             break
     return out
+
+
+# --------------------------------------------------------------------------------------------
+# shrinking (cheap): drop steps of a history; drop rows of a one-step repro
+# --------------------------------------------------------------------------------------------
+
+def shrink_history(impl, hj, prop, sig, budget=60):
+    """Greedily drop steps (never the last one) while some step still fails with (prop, sig)."""
+    import copy
+    import random
+    hj = copy.deepcopy(hj)
+
+    def fails(h):
+        try:
+            return any(p == prop and s_ == sig for (_, p, s_, _) in replay_history(impl, random.Random(0), h, own=prop))
+        except Exception:  # noqa
+            return False
+    if not fails(hj):
+        return hj, False
+    i = 0
+    while i < len(hj["ops"]) - 1 and budget > 0:
+        budget -= 1
+        cand = dict(hj, ops=hj["ops"][:i] + hj["ops"][i + 1:])
+        if fails(cand):
+            hj = cand
+        else:
+            i += 1
+    return hj, True
+
+
+def _drop_row(rows, r):
+    return [x - 1 if x > r else x for x in rows if x != r]
+
+
+def _drop_row_entries(ents, r):
+    out = []
+    for k, rows in ents:
+        if rows is None:
+            out.append([k, None])
+            continue
+        nr = _drop_row(rows, r)
+        if nr or not rows:        # an entry emptied by the shrink goes; one that was empty already stays
+            out.append([k, nr])
+    return out
+
+
+def _drop_row_spec(spec, r):
+    return {"entries": _drop_row_entries(spec["entries"], r), "common": spec["common"], "shape": [spec["shape"][0] - 1] + list(spec["shape"][1:])}
+
+
+def _drop_row_op(op, r):
+    import copy
+    op = copy.deepcopy(op)
+    o = op["op"]
+    if o == "filtered":
+        del op["mask"][r]
+    elif o == "update":
+        op["entries"] = _drop_row_entries(op["entries"], r)
+    elif o in ("union", "inter", "diff"):
+        op["other"] = _drop_row_entries(op["other"], r)
+    elif o == "set_if" and op["value"]:
+        op["value"] = _drop_row(op["value"], r)
+    elif o == "column_stack":
+        op["pre"] = [_drop_row_spec(x, r) for x in op["pre"]]
+        op["post"] = [_drop_row_spec(x, r) for x in op["post"]]
+    return op
+
+
+def shrink_one_step(impl, repro, prop, sig, budget=80):
+    """Drop rows of the receiver (and of an appended operand) while the step still fails with (prop, sig)."""
+    import copy
+    import random
+    repro = copy.deepcopy(repro)
+
+    def fails(rp):
+        try:
+            st = replay_one_step(impl, random.Random(0), rp)
+            return any(p[0] == prop and p[1] == sig for p in st.problems)
+        except Exception:  # noqa
+            return False
+    if not fails(repro):
+        return repro, False
+    r = repro["before"]["shape"][0] - 1
+    while r >= 0 and budget > 0:
+        budget -= 1
+        cand = dict(repro, before=_drop_row_spec(repro["before"], r), op=_drop_row_op(repro["op"], r))
+        if fails(cand):
+            repro = cand
+        r -= 1
+    if repro["op"]["op"] == "append":
+        r = repro["op"]["other"]["shape"][0] - 1
+        while r >= 0 and budget > 0:
+            budget -= 1
+            cand = dict(repro, op=dict(repro["op"], other=_drop_row_spec(repro["op"]["other"], r)))
+            if fails(cand):
+                repro = cand
+            r -= 1
+    return repro, True
+
+
+# --------------------------------------------------------------------------------------------
+# C07: indexes that enter a history from outside (INDX load, from_array)
+# --------------------------------------------------------------------------------------------
+
+def indx_roundtrip(impl, path, idx):
+    """Save the real index with the real IndxIO on a real file, load it back and rebuild the index.
+    Returns (spec of the rebuilt index | None, problem text | None).  INDX stores unsigned values only."""
+    from catii.indxio import IndxIO
+    try:
+        with open(path, "wb") as f:
+            IndxIO.save(f, idx, idx.common, idx.rowid_dtype)
+        with open(path, "rb") as f:
+            ents, common, dt = IndxIO.load(f)
+            loaded = impl.iindex({k: numpy.array(v, dtype=U32) if not isinstance(v, numpy.ndarray) else v for k, v in ents.items()}, common, tuple(idx.shape))
+            w = py_wf(loaded)
+            spec = spec_of(loaded)
+            same = tri(lambda: loaded == idx) == 1 and tri(lambda: loaded != idx) == 0
+            del ents, loaded
+    except Exception as e:  # noqa
+        return None, "save/load raised %s: %s" % (type(e).__name__, str(e)[:160])
+    if w:
+        return spec, "loaded index is ill-formed: " + w
+    if not same:
+        return spec, "loaded index != saved index"
+    return spec, None
+
+
+def lit_lcase(orig, loaded):
+    return "(mklcase %s %s)" % (lit_idx(orig), lit_idx(loaded))
+
+
+def lit_fcase(a, common, spec):
+    rows = lit_rows2d(a)[len("(Some "):-1]
+    return "(mkfcase %s %s %s %s %s)" % (rows, core.zlit(a.shape[0]), zl(a.shape[1:]), core.optlit(common, core.zlit), lit_idx(spec))
+
+
+def from_array_case(impl, rng, a, vals):
+    """from_array on dense array a (1-D/2-D) with a random common argument (None = library-chosen, a present value,
+    an absent value).  Returns (literal | None, problem | None, description)."""
+    present = sorted(set(int(x) for x in a.flat))
+    cm = rng.choice([None, None] + (present[:1] if present else []) + [rng.choice(vals + [NEVER])])
+    if cm is None and a.size == 0:
+        cm = rng.choice(vals)          # documented: "No values or common value provided" is refused
+    try:
+        idx = impl.iindex.from_array(a) if cm is None else impl.iindex.from_array(a, common=cm)
+    except Exception as e:  # noqa
+        return None, "from_array(%r, common=%r) raised %s: %s" % (a.tolist(), cm, type(e).__name__, str(e)[:120]), cm
+    spec = spec_of(idx)
+    w = py_wf(idx)
+    if not w and not (sane_for_densify(spec) and densify(spec).shape == a.shape and (densify(spec) == a).all()):
+        w = "dense content differs from the array"
+    if not w and cm is not None and idx.common != cm:
+        w = "common is %r" % (idx.common,)
+    return lit_fcase(a, cm, spec), (None if not w else "from_array(%r, common=%r) = %r: %s" % (a.tolist(), cm, spec, w)), cm
 
 
 # --------------------------------------------------------------------------------------------
@@ -945,18 +1133,21 @@ class LineCov:
 def run_check(ctx, prop):
     import collections
     import json
+    import os
     n_hist, max_steps = SIZES[ctx.tier]
     ctx.rule = ("random operation histories (<=%d steps) over well-formed 1-D/2-D indexes (10%% start 3-D, for sliced/slices1d), N<=8, <=3 columns, "
                 "values from a 5-value pool (one pool with negatives) plus a never-occurring value, commons incl. absent ones, built by "
                 "from_array or directly in random dict order; every operation of C06's quantifier with its full argument space; the real "
-                "receiver is re-abstracted before EVERY step.  evaluation = one step; distinct non-trivial = distinct (state before, "
-                "operation+arguments) pairs in which the state before or after has at least one entry" % max_steps)
+                "receiver is re-abstracted before EVERY step.  evaluation = one step (C15: + one ==/!= comparison; C07: + one INDX "
+                "load / from_array result); distinct non-trivial = distinct (state before, operation+arguments) pairs in which the "
+                "state before or after has at least one entry" % max_steps)
     ctx.trusted = list(core.STD_TRUSTED) + [
         "harness/iindex_hist.py: abstraction of a real iindex (dict order, int(row ids), common, shape) into a Model.v record literal; "
         "items of set-update operands whose value is None are dropped by the abstraction",
-        "NumPy (concatenate, boolean/fancy indexing, take, unique) as the dense-array oracle",
+        "NumPy (concatenate, boolean/fancy indexing, take, unique, shares_memory) as the dense-array oracle",
     ]
     pr = ctx.prove(prop + ".v")
+    ok_chk, log_chk = core.coq_make(["theories/IIndex/Check.vo"])      # the executable checkers are not in the theorem's cone
     ctx.assumptions = ["Print Assumptions: " + x for x in pr["assumptions"]] + [
         "row counts stay below 2^32 (uint32 row ids); category values are Python ints; set-update operands hold sorted uint32 arrays"]
     ctx.coverage["print_assumptions"] = pr["assumptions"]
@@ -969,19 +1160,33 @@ def run_check(ctx, prop):
     n_cov = 150 if ctx.tier == "quick" else 600
     cases, owners = [], []           # literal, (history number, step number)
     eqcases, eqowners = [], []
+    lcases, lowners, fcases, fowners = [], [], [], []
     hists = []
     opdist = collections.Counter()
     raised = collections.Counter()
     dims = collections.Counter()
+    lengths = collections.Counter()
+    eqkinds = collections.Counter()
+    fa_commons = collections.Counter()
     py_problems = []                 # (hist no, step, prop, sig, text)
+    extra_problems = []              # (sig, text, replay dict)   C07 streams
+    pool = []                        # final (index, dense array) of earlier histories, for C15's cross-history comparisons
+    indx_path = os.path.join(ctx.scratch, "hist.indx")
+    n_load_max = 3000 if ctx.tier == "quick" else 12000
     for hn in range(n_hist):
         if hn == 0:
             cov.start()
         if hn == n_cov:
             cov.stop()
-        h = run_history(impl, rng, max_steps, dims3=(rng.random() < 0.1), with_eq=True, own=prop)
+        h = run_history(impl, rng, max_steps, dims3=(rng.random() < 0.1), with_eq=True, own=prop, pool=pool)
         hists.append(h)
         dims[len(h.init["shape"])] += 1
+        lengths[len(h.steps)] += 1
+        if h.final is not None and len(h.final[0].shape) <= 2:
+            if len(pool) < 40:
+                pool.append(h.final)
+            else:
+                pool[rng.randrange(40)] = h.final
         for (i, p, sig, text) in h.problems:
             py_problems.append((hn, i, p, sig, text))
         for i, st in enumerate(h.steps):
@@ -996,15 +1201,37 @@ def run_check(ctx, prop):
             owners.append((hn, i))
             if st.before["entries"] or (st.after and st.after["entries"]):
                 ctx.nontrivial.add(hash((json.dumps(st.before, sort_keys=True), json.dumps(st.op, sort_keys=True))))
+            if prop == "C07" and not st.raised and not st.problems and st.after is not None:
+                # (a) the result goes through a real INDX file (unsigned values only) and comes back well-formed
+                res_idx = build(impl, st.after)      # (st.result may have been mutated by later steps of the history)
+                if (len(lcases) < n_load_max and res_idx.common >= 0 and all(k[0] >= 0 for k in dict.keys(res_idx))):
+                    spec, why = indx_roundtrip(impl, indx_path, res_idx)
+                    if spec is not None:
+                        lcases.append(lit_lcase(st.after, spec))
+                        lowners.append((hn, i))
+                    if why:
+                        extra_problems.append(("indx-load:illformed", why, {"saved": st.after, "loaded": spec, "history": history_json(h, i),
+                                               "how": "IndxIO.save(f, idx, idx.common, idx.rowid_dtype); IndxIO.load(f); iindex(entries, common, idx.shape).validate(True)"}))
+                # (b) from_array on the dense array this step reached
+                exp = st.expect if st.expect is not None else densify(st.after)
+                if exp.ndim <= 2 and len(fcases) < n_load_max:
+                    lit, why, cm = from_array_case(impl, rng, exp, h.init["vals"])
+                    fa_commons["library-chosen" if cm is None else ("present" if cm in exp else "absent")] += 1
+                    if lit is not None:
+                        fcases.append(lit)
+                        fowners.append((hn, i))
+                    if why:
+                        extra_problems.append(("from_array:illformed", why, {"array": exp.tolist(), "common": cm, "how": "iindex.from_array(array, common=common).validate(True)"}))
         if prop == "C15":
             for c in h.eqcases:
                 eqcases.append(lit_ecase(*c))
                 eqowners.append(hn)
     cov.stop()
-    ctx.evaluations = len(cases) + (len(eqcases) if prop == "C15" else 0)
+    ctx.evaluations = len(cases) + (len(eqcases) if prop == "C15" else 0) + len(lcases) + len(fcases)
     ctx.coverage["histories"] = n_hist
     ctx.coverage["steps"] = len(cases)
     ctx.coverage["operation_distribution"] = dict(opdist)
+    ctx.coverage["history_length_distribution"] = {str(k): v for k, v in sorted(lengths.items())}
     ctx.coverage["expected_exceptions"] = dict(raised)
     ctx.coverage["initial_ndim_distribution"] = {str(k): v for k, v in dims.items()}
     ctx.coverage["anchored_line_coverage(first %d histories)" % n_cov] = cov.report()
@@ -1018,13 +1245,21 @@ def run_check(ctx, prop):
     errors = list(res.errors)
     explain = res.explain
     ctx.coverage["model_disagreements"] = len(failing)
+    res2 = res3 = res4 = None
     if prop == "C15":
         res2 = core.run_cases("c15eq", PRELUDE, eqcases, "ecase", "chk15eq", "explain_eq", shard_size=600)
         ctx.coverage["eq_cases"] = len(eqcases)
         ctx.coverage["eq_model_disagreements"] = len(res2.failing)
         errors += res2.errors
-    else:
-        res2 = None
+    if prop == "C07":
+        res3 = core.run_cases("c07load", PRELUDE, lcases, "lcase", "chk07load", "explain_load", shard_size=600)
+        res4 = core.run_cases("c07from", PRELUDE, fcases, "fcase", "chk07from", "explain_from", shard_size=600)
+        ctx.coverage["indx_load_cases"] = len(lcases)
+        ctx.coverage["from_array_cases"] = len(fcases)
+        ctx.coverage["from_array_common_argument"] = dict(fa_commons)
+        ctx.coverage["indx_load_disagreements"] = len(res3.failing)
+        ctx.coverage["from_array_disagreements"] = len(res4.failing)
+        errors += res3.errors + res4.errors
     ctx.coverage["coq_case_shards_failed"] = len(errors)
 
     # ---- verdicts ----
@@ -1037,34 +1272,62 @@ def run_check(ctx, prop):
         if len(seen) > 6:
             break
         h = hists[hn]
-        rep = {"history": history_json(h, i if i >= 0 else None), "failing_step": i, "observed": text,
+        hj = history_json(h, i if i >= 0 else None)
+        rep = {"history": hj, "failing_step": i, "observed": text,
                "count_of_this_signature": sum(1 for x in mine if x[3] == sig),
                "how": "build init.spec with iindex(...), apply ops in order; NumPy on the dense array is the oracle"}
         if i >= 0:
-            rep["one_step"] = one_step_repro(h.steps[i])
+            try:
+                shj, ok_h = shrink_history(impl, hj, prop, sig)
+                if ok_h and len(shj["ops"]) < len(hj["ops"]):
+                    rep["history_shrunk"] = shj
+                one, ok_1 = shrink_one_step(impl, one_step_repro(h.steps[i]), prop, sig)
+                rep["one_step"] = one
+                rep["one_step_reproduces_alone"] = ok_1
+            except Exception as e:  # noqa  (shrinking is best effort)
+                rep["one_step"] = one_step_repro(h.steps[i])
+                rep["shrink_error"] = repr(e)
         ctx.report(sig, text[:300], rep)
+    if prop == "C07":
+        done = set()
+        for sig, why, rep in extra_problems:
+            if sig not in done:
+                done.add(sig)
+                rep["count_of_this_signature"] = sum(1 for x in extra_problems if x[0] == sig)
+                ctx.report(sig, why[:300], rep)
     py_steps = {(hn, i) for (hn, i, p, sig, text) in py_problems}
     unexplained = [k for k in failing if owners[k] not in py_steps]
-    eq_unexplained = []
+    eq_unexplained, load_unexplained, from_unexplained = [], [], []
     if res2 is not None:
         bad_h = {hn for (hn, i, p, sig, text) in py_problems}
         eq_unexplained = [k for k in res2.failing if eqowners[k] not in bad_h]
-    if not pr["ok"] or errors or unexplained or eq_unexplained:
+    if res3 is not None and not extra_problems:
+        load_unexplained = list(res3.failing)
+        from_unexplained = list(res4.failing)
+    if not pr["ok"] or not ok_chk or errors or unexplained or eq_unexplained or load_unexplained or from_unexplained:
         what = []
         if not pr["ok"]:
             what.append("proof obligation no longer checks: Properties/%s.v or its dependency cone" % prop)
+        if not ok_chk:
+            what.append("IIndex/Check.v (executable checkers) does not compile")
         if unexplained:
             what.append("suite %ssteps: %d steps where the real outcome and the model's differ at the property level although the NumPy oracle accepts the real outcome" % (prop.lower(), len(unexplained)))
         if eq_unexplained:
             what.append("suite c15eq: %d comparisons where ==/!= and eq_model/same-content differ" % len(eq_unexplained))
+        if load_unexplained:
+            what.append("suite c07load: %d INDX round trips whose result wf_b / the comparison with the saved index rejects" % len(load_unexplained))
+        if from_unexplained:
+            what.append("suite c07from: %d from_array results that wf_b / the dense comparison rejects" % len(from_unexplained))
         if errors:
             what.append("correspondence shards failed to evaluate: %s" % (errors[0][1][-400:],))
         ctx.report(prop.lower() + ":not-shown", "; ".join(what), {
-            "proof_log": "" if pr["ok"] else pr["log"][-3000:],
+            "proof_log": ("" if pr["ok"] else pr["log"][-3000:]) + ("" if ok_chk else log_chk[-2000:]),
             "disagreeing_steps": [{"history": history_json(hists[owners[k][0]], owners[k][1]), "one_step": one_step_repro(hists[owners[k][0]].steps[owners[k][1]]),
                                    "coq_case": cases[k][:3000]} for k in unexplained[:5]],
             "disagreeing_eq_cases": [eqcases[k][:2000] for k in eq_unexplained[:5]],
-            "explain": (explain or "")[-3000:] + ((res2.explain or "")[-2000:] if res2 is not None else ""),
+            "disagreeing_load_cases": [lcases[k][:2000] for k in load_unexplained[:5]],
+            "disagreeing_from_array_cases": [fcases[k][:2000] for k in from_unexplained[:5]],
+            "explain": (explain or "")[-3000:] + "".join((r.explain or "")[-2000:] for r in (res2, res3, res4) if r is not None),
             "search": "%d steps of %d histories judged by the direct oracles found no failing input" % (len(cases), n_hist)}, found_input=False)
 
 
@@ -1080,7 +1343,7 @@ def replay_check(ctx, prop, path):
             print("one-step replay: %s %s: %s" % p)
             found.append(p)
     if "history" in r:
-        for (i, p, sig, text) in replay_history(impl, ctx.rng, r["history"]):
+        for (i, p, sig, text) in replay_history(impl, ctx.rng, r["history"], own=prop):
             print("history replay, step %d: %s %s: %s" % (i, p, sig, text))
             found.append((p, sig, text))
     ctx.evaluations = len(r.get("history", {}).get("ops", [])) + (1 if "one_step" in r else 0)
